@@ -17,6 +17,8 @@ REPO = os.path.join(LAB, "repo")
 VERIF = os.path.join(LAB, "verif")
 HERE = os.path.dirname(os.path.dirname(os.path.abspath(__file__)))
 OUT = os.path.join(HERE, "mutation", "results.jsonl")
+OUT_TESTS = os.path.join(HERE, "mutation", "results_tests.jsonl")
+OUT_CHECKS = os.path.join(HERE, "mutation", "results_checks.jsonl")
 
 FILES = {
     "typegen/src/utils.rs": ["C03", "C04", "C17", "C05", "C10", "C01", "C02"],
@@ -102,13 +104,62 @@ def sh(cmd, cwd, timeout, env=None):
     except subprocess.TimeoutExpired:
         return 124, "timeout"
 
+def report():
+    def load(p):
+        d = {}
+        if os.path.exists(p):
+            for l in open(p):
+                try:
+                    r = json.loads(l); d[(r["file"], r["line"], r["op"], r["k"])] = r
+                except Exception:
+                    pass
+        return d
+    both, tests, checks = load(OUT), load(OUT_TESTS), load(OUT_CHECKS)
+    rows = []
+    for k, r in both.items():
+        rows.append((k, r["status"], r))
+    for k, c in checks.items():
+        if k in both:
+            continue
+        t = tests.get(k)
+        if c["status"] == "stillborn" or (t and t["status"] == "stillborn"):
+            st = "stillborn"
+        elif t is None:
+            st = "caught_tests_unknown" if c["status"] == "caught" else ("missed_tests_unknown" if c["status"] == "missed" else c["status"])
+        elif t["status"] == "killed_by_tests":
+            st = "killed_by_tests" + ("_and_caught" if c["status"] == "caught" else "_but_missed_by_checks")
+        elif t["status"] == "survives_tests":
+            st = c["status"]
+        else:
+            st = t["status"]
+        rows.append((k, st, c))
+    from collections import Counter
+    cnt = Counter(st for _, st, _ in rows)
+    print(json.dumps(cnt, indent=1))
+    surv = cnt["caught"] + cnt["missed"]
+    if surv:
+        print("mutants that compile and pass the repo's tests: %d, caught by the quick checks: %d (%.1f%%)" % (surv, cnt["caught"], 100.0 * cnt["caught"] / surv))
+    for k, st, r in rows:
+        if st.startswith("missed") or st.endswith("missed_by_checks"):
+            print(st, r["file"], r["line"], r["op"], "|", r["old"].strip()[:100], "=>", r["new"].strip()[:100], "| infra:", [i[0] for i in r.get("infra", [])])
+    return 0
+
 def main():
     ap = argparse.ArgumentParser()
     ap.add_argument("--n", type=int, default=100)
     ap.add_argument("--seed", type=int, default=1)
     ap.add_argument("--files", default="*")
-    ap.add_argument("--all-checks", action="store_true", help="run every check on survivors (default: the relevant ones of the file first, then the rest)")
+    ap.add_argument("--mode", default="both", choices=["both", "tests", "checks"],
+                    help="both: tests, then checks for survivors (results.jsonl). tests / checks: only that half, for two labs running in parallel (results_tests.jsonl / results_checks.jsonl); merge with --report")
+    ap.add_argument("--report", action="store_true")
     a = ap.parse_args()
+    if a.report:
+        return report()
+    global OUT
+    if a.mode == "tests":
+        OUT = OUT_TESTS
+    elif a.mode == "checks":
+        OUT = OUT_CHECKS
     import fnmatch
     pool = []
     for f in FILES:
@@ -139,9 +190,14 @@ def main():
         src[m["line"] - 1] = m["new"]
         open(p, "w").write("\n".join(src))
         t0 = time.time()
-        rc, out = sh(["cargo", "test", "--workspace", "--offline", "--lib", "-q"], REPO, 900)
+        if a.mode == "checks":
+            rc, out = 0, ""
+        else:
+            rc, out = sh(["cargo", "test", "--workspace", "--offline", "--lib", "-q"], REPO, 900)
         rec = dict(m); rec["t_tests"] = round(time.time() - t0, 1)
-        if rc != 0:
+        if a.mode == "tests" and rc == 0:
+            rec["status"] = "survives_tests"
+        elif rc != 0:
             if "error[" in out or "error:" in out and "test failed" not in out and "FAILED" not in out:
                 rec["status"] = "stillborn"
             elif rc == 124:
@@ -164,6 +220,9 @@ def main():
                     break
                 if rc2 != 0:
                     rec["infra"].append([c, rc2, out2[-200:]])
+                    if "harness build failed" in out2:
+                        rec["status"] = "stillborn"
+                        break
         sh(["git", "checkout", "-q", "--", "."], REPO, 60)
         with open(OUT, "a") as f:
             f.write(json.dumps(rec) + "\n")
